@@ -360,7 +360,8 @@ pub fn cond_text(c: &Cond) -> String {
             if *flip { format!("\"{}\" {} type({})", t, op, VAR_NAMES[*var as usize]) } else { format!("type({}) {} \"{}\"", VAR_NAMES[*var as usize], op, t) }
         }
         Cond::Not(x) => match **x {
-            Cond::Opaque(_) | Cond::Truthy(_) | Cond::Paren(_) => format!("not {}", cond_text(x)),
+            // `not not c` stacks the operators directly; the parenthesised spelling is Not(Paren(Not(c)))
+            Cond::Opaque(_) | Cond::Truthy(_) | Cond::Paren(_) | Cond::Not(_) => format!("not {}", cond_text(x)),
             _ => format!("not ({})", cond_text(x)),
         },
         Cond::And(x, y) => format!("{} and {}", cond_operand(x), cond_operand(y)),
